@@ -327,7 +327,39 @@ class CFG:
             self._connect(preds, n)
             return [(n, 'n')], []
         if hasattr(ast, 'Match') and isinstance(st, ast.Match):
-            raise CFGUnsupported('match statement')
+            # the subject, then one node per case (kind 'case': pattern matched -> 'T', else 'F' to the next case; a guard is
+            # an ordinary test behind it); an irrefutable last case (`case _:` / a bare capture without guard) has no 'F' side
+            subj = self._new('stmt', st.subject, label=' [match-subject]')
+            self._connect(preds, subj)
+            jumps = []
+            cls = self.may_raise(st.subject)
+            if cls:
+                jumps.append(self._raise_jump(subj, cls))
+            cur = [(subj, 'n')]
+            normal = []
+            for case in st.cases:
+                cn = self._new('case', case, label=' [case]')
+                self._connect(cur, cn)
+                enter = [(cn, 'T')]
+                nxt = []
+                irrefutable = isinstance(case.pattern, ast.MatchAs) and case.pattern.pattern is None
+                if not irrefutable:
+                    nxt.append((cn, 'F'))
+                if case.guard is not None:
+                    g = self._new('test', case.guard)
+                    self._connect(enter, g)
+                    gcls = self.may_raise(case.guard)
+                    if gcls:
+                        jumps.append(self._raise_jump(g, gcls))
+                    enter = [(g, 'T')]
+                    nxt.append((g, 'F'))
+                bnormal, bj = self._block(case.body, enter, hc)
+                normal.extend(bnormal)
+                jumps.extend(bj)
+                cur = nxt
+                if not cur:
+                    break
+            return normal + cur, jumps
         return self._simple(st, preds, hc)
 
     def _handler_types(self, h):
